@@ -212,6 +212,23 @@ def do_einsum(it, args, kwargs, node, kind="tensor"):
     t = None
     if all(x is not None for x in ts) and 1 <= len(ts) <= 3:
         t = einsum_as_matmul(spec_n, ts) if len(ts) == 2 else None
+        if t is None and len(ts) == 2:
+            # '<lead>k,k-><kept>': the product with a vector along the last axis, then a sum over the leading axes the output does
+            # not name (an ellipsis missing from the output is summed as well) - decided when the operand's rank is known
+            ins_, out_ = parse_einsum(spec_n)
+            sh0 = tshape(ops[0])
+            if len(ins_) == 2 and len(ins_[1]) == 1 and ins_[0].endswith(ins_[1]) and ins_[1] not in out_ and ins_[0].count(ins_[1]) == 1 and sh0 is not None and "..." not in out_:
+                lead = ins_[0][:-1]
+                n_lead = len(sh0) - 1
+                names = [("...%d" % j) for j in range(n_lead - len(lead.replace("...", "")))] if "..." in lead else []
+                seq = []
+                for ch in (lead.split("...") if "..." in lead else [lead]):
+                    seq.append(list(ch))
+                axes_names = (seq[0] + names + seq[1]) if "..." in lead else seq[0]
+                if len(axes_names) == n_lead and all(ch in axes_names for ch in out_) and len(set(axes_names)) == len(axes_names) and list(out_) == [a_ for a_ in axes_names if a_ in out_]:
+                    summed = tuple(j - n_lead for j, a_ in enumerate(axes_names) if a_ not in out_)
+                    mm = T.app("matmul", ts[0], ts[1])
+                    t = T.app("sum", mm, summed) if summed else mm
         if t is None:
             t = T.app("einsum%d" % len(ts), spec_n, *ts)
     return it.fresh(t, shape, kind, node)
@@ -498,7 +515,9 @@ def _call_ext(it, name, args, kwargs, node):
                         u.elem = (lambda a=a: it.loop_elem(a, False, node))
                 return u
             out.extend(items)
-        return VIter(out)
+        r_ = VIter(out)
+        r_.one_shot = True  # a chain object is an iterator: walking it (a loop, a membership test) uses it up
+        return r_
     if n == "itertools.repeat" and len(args) == 1:
         u = VUnknown("repeat", "iter")
         u.endless = True
@@ -589,6 +608,12 @@ def call_opaque(it, f, args, kwargs, node):
     tag = f.name if isinstance(f, VExt) else getattr(f, "tag", "object")
     if isinstance(f, VUnknown) and getattr(f, "recv", None) is not None and not args and not kwargs and str(tag).rsplit(".", 1)[-1] in ("long", "int"):
         return f.recv  # an index value stored in another integer dtype: the same site numbers
+    if isinstance(f, VUnknown) and isinstance(getattr(f, "recv", None), VUnknown) and not args and not kwargs and str(tag).rsplit(".", 1)[-1] == "item" and f.recv.kind == "unknown":
+        # the python number a one-element tensor / numpy scalar holds: the same value
+        rt_ = getattr(f.recv, "term", None)
+        v_ = VNum("float", rt_ if rt_ is not None else T.sym("val:" + f.recv.tag))
+        v_.from_value = f.recv
+        return v_
     touched = []
     for a in list(args) + list(kwargs.values()):
         if isinstance(a, VTens):
@@ -676,6 +701,11 @@ def call_torch(it, f, args, kwargs, node):
                         r.obj.fw = 32  # torch's default dtype for python floats
                         if inexact:
                             it.narrowings.append((it.site(node), "python floats are stored as float32 (torch.tensor without dtype)", r.obj))
+                    elif isinstance(x, VUnknown) and getattr(x, "callee", None) is not None and x.kind == "unknown":
+                        # what a user's callable returned: a tensor keeps its dtype, a python float (what the library's own metric
+                        # functions return) becomes a float32 tensor
+                        r.obj.from_value = x
+                        it.narrowings.append((it.site(node), "a python float handed to torch.%s without dtype= becomes a float32 tensor: the value is rounded to about 7 digits" % f, r.obj))
             elif f in ("zeros", "ones", "rand", "randn", "empty", "full", "eye", "linspace"):
                 r.obj.fw = 32
     dv = kwargs.get("device") if isinstance(kwargs, dict) else None
@@ -775,7 +805,8 @@ def _call_torch(it, f, args, kwargs, node):
             return VConst(True)  # the same value (terms are pure values)
         if a.shape is not None and b.shape is not None and len(a.shape) != len(b.shape) and f == "equal":
             return VConst(False)
-        u = VNum("bool", T.app("tensor_equal", a.term, b.term)) if a.term is not None and b.term is not None else VUnknown("torch." + f, "bool")
+        # equal: the same entries; allclose: entries within a tolerance of each other - a different fact
+        u = VNum("bool", T.app("tensor_equal" if f == "equal" else "tensor_allclose", a.term, b.term)) if a.term is not None and b.term is not None else VUnknown("torch." + f, "bool")
         return u
     if f in ("matmul", "mm", "dot", "mv", "bmm"):
         return torch_matmul(it, args, kwargs, node, op=f if f in ("dot", "mv") else "matmul")
@@ -893,6 +924,15 @@ def _call_torch(it, f, args, kwargs, node):
         shape = shape_from_args([size]) if size is not None else None
         it.rng_counter = getattr(it, "rng_counter", 0) + 1
         r = it.fresh(T.app("randint", num_term(hi) if num_term(hi) is not None else T.sym("?"), T.sym("draw#%d" % it.rng_counter)), shape, "tensor", node)
+        r.obj.valkind = "index"
+        r.obj.index_bound = hi
+        return r
+    if f == "randint_like" and args and isinstance(args[0], VTens):
+        # as many draws as the template tensor has entries, whatever that tensor holds
+        a = list(args[1:])
+        hi = a[-1] if a else kwargs.get("high")
+        it.rng_counter = getattr(it, "rng_counter", 0) + 1
+        r = it.fresh(T.app("randint", num_term(hi) if num_term(hi) is not None else T.sym("?"), T.sym("draw#%d" % it.rng_counter)), tshape(args[0]), "tensor", node)
         r.obj.valkind = "index"
         r.obj.index_bound = hi
         return r
@@ -1690,6 +1730,20 @@ def dict_method(it, dv, name, args, kwargs, node):
                 return d.items[k]
             if not d.extra_unknown:
                 return dflt
+        if d.items and not ok and not d.extra_unknown and all(isinstance(x, VTens) for x in d.items.values()):
+            # a key that is not known, looked up in a dictionary whose entries are: either it is not there (the default), or the
+            # result is one of the entries - whatever is then written through it is written into an entry
+            if not it.decide(None, node, "dict.get: the key is present"):
+                return dflt
+            vals = list(d.items.values())
+            shapes = {x.shape for x in vals}
+            terms = [x.term for x in vals]
+            kt = getattr(args[0], "term", None) or T.sym("key:%s" % getattr(args[0], "tag", "?"))
+            t = T.app("select", kt, tuple(terms)) if all(x is not None for x in terms) else None
+            r = it.fresh(t, shapes.pop() if len(shapes) == 1 else None, vals[0].kind, node)
+            for x in vals:
+                r.obj.may_alias.add(x.obj)
+            return r
         return VUnknown("get(%s)" % d.origin, "unknown", d.origin)
     if name == "copy":
         nd = it.new_dict(dict(d.items) if d.items is not None else None)
